@@ -672,13 +672,21 @@ func c11Flow(c *Ctx) {
 			}
 		}
 	}
+	// systematic: both kinds of generated subtitles in one MPD (every AdaptationSet must be addressable by its id)
+	if a := findVAsset("testpic_2s"); a != nil {
+		for _, mode := range []string{"segtimeline_1", "segtimelinenr_1"} {
+			one(a, mode, 60, "timesubsstpp_en/timesubswvtt_en/", 1790000000300, 1790000004300)
+			one(a, mode, 60, "timesubsstpp_en,sv/timesubswvtt_sv/tsbd_10/", 1790000000300, 1790000012300)
+		}
+	}
 	for ai := range vAssets {
 		a := &vAssets[ai]
 		for it := 0; it < c.N(4, 30); it++ {
 			mode := r.PickS("segtimeline_1", "segtimelinenr_1")
 			ttl := r.Pick(60, 30, 600)
 			extra := r.PickS("", "", "periods_60/", "tsbd_30/", "periods_120/tsbd_10/", "ato_1.5/chunkdur_0.25/", "periods_60/ato_1/", "periods_120/ato_0.5/", "periods_60/ato_1.5/chunkdur_0.5/",
-				"tsbd_25/start_1700000000/", "tsbd_7/start_61/", "tsbd_25/", "periods_60/tsbd_25/", "periods_60/tsbd_30/", "periods_120/tsbd_10/")
+				"tsbd_25/start_1700000000/", "tsbd_7/start_61/", "tsbd_25/", "periods_60/tsbd_25/", "periods_60/tsbd_30/", "periods_120/tsbd_10/",
+				"timesubsstpp_en/timesubswvtt_en/", "timesubsstpp_en,sv/timesubswvtt_sv,en/tsbd_10/")
 			base := int64(1790000000000) + int64(r.Intn(100000))
 			if strings.Contains(extra, "start_61/") && r.Intn(2) == 0 {
 				base = 61000 + int64(r.Intn(200000)) // close to the start of the stream
